@@ -81,7 +81,7 @@ func c19Run(r *core.Run) {
 	if bin == "" {
 		panic("C19 needs VERIF_CHECK_BIN (bin/vcheck builds tools/check with -tags verif)")
 	}
-	now := time.Now().UTC().Truncate(time.Hour)
+	now := wallNow
 	w := world.NewWorld(t, world.Cfg{Processor: 1, AuthLen: 0, Epoch: now})
 	C := world.NewPKI(t, "C", now, nil)
 	dir, err := os.MkdirTemp("", "verif-c19-")
@@ -182,11 +182,12 @@ func c19Run(r *core.Run) {
 					cur = cur<<8 | uint64(raw[rg.Off+k])
 				}
 				vs := []uint64{0, 1, cur - 1, cur + 1, cur / 2, max, max - 1, max - uint64(t.Draw(1024)), max / 2, max/2 + 1, uint64(len(raw)), uint64(len(raw) - rg.Off)}
-				v := vs[t.Draw(len(vs))] & max
+				vi := t.Draw(len(vs))
+				v := vs[vi] & max
 				for k := 0; k < rg.Len; k++ {
 					raw[rg.Off+k] = byte(v >> (8 * k))
 				}
-				note("%s=%#x", name, v)
+				note("%s=boundary-value-%d", name, vi) // the value itself depends on encodings that change with the hour
 			}
 		}
 		quoteBytes = raw
